@@ -284,6 +284,17 @@ def ttx_header(rng, mag, page, flags=0):
     return "t:" + "".join("%02x" % x for x in b[:42])
 
 
+def ttx_station_header(mag, page, station, clock="12:34:56", damage=None):
+    """rolling page header (no control bits) of page <mag><page> whose text carries the page number, as
+    same_header() needs it, the station name and a clock; damage = index of a text byte with wrong parity"""
+    b = [HAM8[mag & 7], HAM8[0], HAM8[page & 15], HAM8[(page >> 4) & 15]] + [HAM8[0]] * 6
+    txt = "%x%02x %-20.20s%-8.8s" % (mag & 7 or 8, page & 0xFF, station, clock)
+    t = [odd(ord(c)) for c in txt[:32]]
+    if damage is not None:
+        t[damage % 32] ^= 0x80
+    return "t:" + "".join("%02x" % x for x in (b + t)[:42])
+
+
 class C20(verif.Spec):
     prop = "C20"
     comp = "locks"
@@ -316,7 +327,8 @@ class C20(verif.Spec):
                     "Locks/Instance.lean: the lock order and the field <-> mutex association"]
     open_statements = []
     rule = ("cases = corpus + seeded sequential op streams (caption command scripts incl. XDS and ITV triggers, teletext/VPS "
-            "lines, fetch / channel switch / raw decoder service changes, malformed op lines) + concurrent role mixes "
+            "lines, Teletext services with rolling headers whose station name changes with/without announcement, fetch / channel "
+            "switch / raw decoder service changes, malformed op lines) + concurrent role mixes incl. station changes "
             "(`par`); non-trivial = at least one API trace or concurrent run was produced; distinct by md5 of the op lines")
 
     def gen_cases(self, rng, tier):
@@ -324,12 +336,15 @@ class C20(verif.Spec):
         cases = []
         n_seq = 1000 if quick else 12000
         for k in range(n_seq):
-            cases.append(self.seq_case(rng, k))
+            cases.append(self.station_case(rng) if k % 16 == 7 else self.seq_case(rng, k))
         cases.append(self.malformed_case(rng))
         # concurrent mixes: (threads, handler mode, gap, frames)
         mixes = [("DFF", 1, 97, 2500), ("DFF", 0, 53, 2000), ("DFC", 1, 0, 400), ("DFCF", 3, 61, 250), ("DF", 0, 0, 3000),
                  ("DFFF", 1, 0, 2000), ("DCC", 2, 0, 300), ("RAA", 0, 0, 1500), ("RRA", 0, 0, 1000), ("RAAA", 0, 0, 1500),
-                 ("DFRA", 1, 83, 800)]
+                 ("DFRA", 1, 83, 800),
+                 # Teletext station changes nobody announced (header mismatch in the same magazine), with and
+                 # without a concurrent vbi_channel_switched() caller
+                 ("TFF", 1, 0, 900), ("TC", 0, 0, 500), ("TCF", 3, 61, 400)]
         if not quick:
             mixes = [(a, b, c, d * 2) for (a, b, c, d) in mixes] * 4
         for th, mode, gap, frames in mixes:
@@ -402,6 +417,58 @@ class C20(verif.Spec):
                     fr.append((284, 0x15, 0x2C))
         return fr
 
+    def station_case(self, rng):
+        """Teletext service with consistent rolling headers, then the header text changes: in the same magazine
+        (an unannounced station change: store_lop resets the decoder at once), in another magazine, across the
+        23h -> 00h date transition, with a parity error, after an announced switch or during a frame-drop countdown"""
+        c = ["handler 0x%x %d" % (rng.choice([0x7fffffff, 0x7fffffff, 0x1 | 0x10 | 0x40, 0x1]), rng.choice([0, 1, 1, 3]))]
+        mag = rng.choice([1, 1, 1, 2, 8])
+        a, b2 = rng.sample(["STATION ONE", "OTHER TV", "ZVBI TEST", "Third Programme 3", "X"], 2)
+        clock = "12:34:%02d" % rng.randrange(60)
+        page = rng.choice([0, 10, 23, 45])
+        def hdr(station, n, **kw):
+            d = (page + n) % 100
+            pg = (d // 10) * 16 + d % 10               # BCD page number
+            return ttx_station_header(mag, pg, station, kw.pop("clock", clock), **kw)
+        def dec(item, extra=None):
+            items = [item]
+            if extra is None and rng.random() < 0.3:
+                items.append(cc(0x14, rng.choice([0x25, 0x2C, 0x2D, 0x20, 0x2F])))
+            c.append("decode 33 " + " ".join(items))
+        n = 0
+        for _ in range(rng.randrange(3, 6)):          # station A: the reference header is stored
+            dec(hdr(a, n)); n += 1
+        kind = rng.choice(["same-mag", "same-mag", "same-mag", "announced", "other-mag", "date", "parity", "countdown", "fetch-between"])
+        if kind == "announced":
+            c.append("chsw")
+            c.append("decode 33")
+        elif kind == "countdown":
+            c.append("decode 300")                     # frames dropped: 40 frame countdown runs
+        elif kind == "fetch-between":
+            c.append("fetch %d" % rng.randrange(1, 9))
+        if kind == "other-mag":
+            m2 = 3 if mag != 3 else 4
+            for k in range(3):
+                c.append("decode 33 " + ttx_station_header(m2, 0x10 + k, b2, clock))
+        elif kind == "date":
+            for k in range(3):
+                dec(hdr(a, n, clock="23:59:5%d" % k)); n += 1
+            for k in range(3):
+                dec(hdr(a + "!", n, clock="00:00:0%d" % k)); n += 1
+        elif kind == "parity":
+            for k in range(3):
+                dec(hdr(b2, n, damage=rng.randrange(4, 24))); n += 1
+        for _ in range(rng.randrange(3, 6)):          # station B: old header once more, then the mismatch
+            dec(hdr(b2, n)); n += 1
+            if rng.random() < 0.15:
+                c.append("chsw")
+        for _ in range(rng.randrange(0, 3)):          # and sometimes back again
+            dec(hdr(a, n)); n += 1
+        c.append(rng.choice(["chsw", "fetch 1", "decode 33"]))
+        c.append("decode 33 " + hdr(b2, n))
+        c.append("decode 33")
+        return c
+
     def seq_case(self, rng, k):
         c = []
         mode = rng.choice([0, 1, 1, 1, 3])
@@ -459,7 +526,10 @@ class C20(verif.Spec):
                 c.append("decode 40")
         # dropped frames start the countdown; an unchanged page header then cancels it (store_lop)
         if rng.random() < 0.15:
-            h0, h1 = ttx_header(rng, 1, 0x00, 0), ttx_header(rng, 1, 0x01, 0)
+            if rng.random() < 0.5:        # headers that carry the page number: same_header() is conclusive (case TRUE)
+                h0, h1 = ttx_station_header(1, 0x00, "ZVBI TEST"), ttx_station_header(1, 0x01, "ZVBI TEST")
+            else:
+                h0, h1 = ttx_header(rng, 1, 0x00, 0), ttx_header(rng, 1, 0x01, 0)
             c += ["decode 33 " + h0, "decode 33 " + h1, "decode 33 " + h0, "decode 300", "decode 33 " + h1, "decode 33 " + h0, "decode 33"]
         # always end with the 40-frame countdown sometimes, so that the automatic channel switch fires
         if rng.random() < 0.15:
@@ -472,7 +542,7 @@ class C20(verif.Spec):
         return ["decode", "decode x", "decode 33 c21", "decode 33 c21:zz", "decode 33 c21:808080", "decode 33 q:00",
                 "decode 33 t:00", "fetch", "fetch a", "chsw 1", "raw 1", "add 1 1", "remove 1", "check 1 1", "rawreset",
                 "rawinit 1 2 3", "rawinit 625 0x40f 7", "handler 1", "handler 1 9", "par 1 2", "par 1 10 0 0 Q",
-                "par 1 10 0 0 F", "bogus", "accept vbi_decode", "resize 1 2 3", "decode -5", "decode 999999999"]
+                "par 1 10 0 0 F", "par 1 10 0 0 DT", "bogus", "accept vbi_decode", "resize 1 2 3", "decode -5", "decode 999999999"]
 
     # -----------------------------------------------------------------------------------------
     def classify(self, case):
@@ -490,6 +560,8 @@ class C20(verif.Spec):
             kinds.append("f2")
         if " t:" in txt or " v:" in txt:
             kinds.append("ttx")
+        if case and case[0].startswith("handler") and len(case) > 3 and case[1].startswith("decode 33 t:") and case[2].startswith("decode 33 t:"):
+            kinds.append("station")
         if "chsw" in txt or "decode 300" in txt or "decode 200" in txt or "decode 5000" in txt:
             kinds.append("switch")
         return "seq:" + ("+".join(kinds) or "cc")
